@@ -337,6 +337,19 @@ def untilError {α ε : Type} : List (Except ε α) → List α × Option ε
   | .ok v :: r => (v :: (untilError r).1, (untilError r).2)
   | .error e :: _ => ([], some e)
 
+/-- forward mode: `cur_byte_pos` (= `file.tell()`) read after each object a plain loop yields;
+    `pos` = offset of the start of the first line -/
+def consumePos {α ε : Type} (parse : List Nat → Except ε α) (ignore : Bool) : Nat → List (List Nat) → List Nat
+  | _, [] => []
+  | pos, l :: ls =>
+    if lineNorm l = [] then consumePos parse ignore (pos + l.length) ls
+    else match parse (lineNorm l) with
+      | .ok _ => (pos + l.length) :: consumePos parse ignore (pos + l.length) ls
+      | .error _ => if ignore then consumePos parse ignore (pos + l.length) ls else []
+
+def jsonlForwardPosB {α ε : Type} (parse : List Nat → Except ε α) (ignore : Bool) (c : List Nat) : List Nat :=
+  consumePos parse ignore 0 (fileLinesB c)
+
 /-! ### JSONLIterator(rel_seek=…): start somewhere inside a text-mode file -/
 
 /-- offset of the first `\n` / `\r` in `s` (universal newlines present both to
